@@ -12,7 +12,7 @@ import (
 
 func init() {
 	register("C10", propMeta{
-		Explanation: "E-CONST + E-GUARD + E-PAIR + E-PANIC on common/amp. O-1 size constants: bytesPerChunk = 32, elementSizeLimit = 32 KiB, 1 + chunksPerElement*(bytesPerChunk+1) <= elementSizeLimit, and in decodeToWriter tokenizer.SetMaxBuf(c) with c >= that encoder maximum lies on every path between html.NewTokenizer and the first tokenizer.Next (bounded buffering). O-2 whitespace vocabulary: the case set of isASCIIWhitespace is {09, 0a, 0c, 0d, 20} and every separator the encoder writes after a word is in it. O-3 version, alphabet and single stream agree: the encoder writes the version byte '0' through the element encoder before creating the base64 encoder; armorEncoder.Write feeds the payload only through that one streaming base64 encoder; the decoder accepts exactly '0', returns ErrUnknownVersion otherwise; both sides use base64.StdEncoding. O-4 structural errors are errors: the 'inside a pre element' state becomes true only on its false edge and false only on its true edge, by literal transitions; a nested start tag, a stray end tag and end of input inside an element each lead to a return that never re-enters the loop; text reaches the output only on the active edge. O-5 no hang or leak: the decoder goroutine closes the pipe with the decode error on every path and every error return of NewArmorDecoder closes the read side first. O-6 no termination construct reachable from the encoder and decoder entry points. O-7 the one Read whose count is discarded (the version byte from the io.Pipe) is fed only by writes of scanner tokens. Added after the second seeding round: O-5 also requires that no path leads from the tokenizer's ErrorToken case back to Next() (the error is sticky: the loop would spin); O-8 no function of common/amp returns, writes, appends/copies into, or calls a method on a package-level object (compiled regexps, base64 alphabets and sync primitives excepted). Added after the fourth seeding round: O-1b the element encoder's two counters are only advanced (old value plus something) or restarted at zero behind the comparison with their limit, and every payload write is followed by an advance of the chunk counter. Added after the fifth seeding round: decodeToWriter returns success only behind the end-of-input token test; the base64 decoder returned by NewArmorDecoder reads the pipe itself (no limiting reader in between).",
+		Explanation: "E-CONST + E-GUARD + E-PAIR + E-PANIC on common/amp. O-1 size constants: bytesPerChunk = 32, elementSizeLimit = 32 KiB, 1 + chunksPerElement*(bytesPerChunk+1) <= elementSizeLimit, and in decodeToWriter tokenizer.SetMaxBuf(c) with c >= that encoder maximum lies on every path between html.NewTokenizer and the first tokenizer.Next (bounded buffering). O-2 whitespace vocabulary: the case set of isASCIIWhitespace is {09, 0a, 0c, 0d, 20} and every separator the encoder writes after a word is in it. O-3 version, alphabet and single stream agree: the encoder writes the version byte '0' through the element encoder before creating the base64 encoder; armorEncoder.Write feeds the payload only through that one streaming base64 encoder; the decoder accepts exactly '0', returns ErrUnknownVersion otherwise; both sides use base64.StdEncoding. O-4 structural errors are errors: the 'inside a pre element' state becomes true only on its false edge and false only on its true edge, by literal transitions; a nested start tag, a stray end tag and end of input inside an element each lead to a return that never re-enters the loop; text reaches the output only on the active edge. O-5 no hang or leak: the decoder goroutine closes the pipe with the decode error on every path and every error return of NewArmorDecoder closes the read side first. O-6 no termination construct reachable from the encoder and decoder entry points. O-7 the one Read whose count is discarded (the version byte from the io.Pipe) is fed only by writes of scanner tokens. Added after the second seeding round: O-5 also requires that no path leads from the tokenizer's ErrorToken case back to Next() (the error is sticky: the loop would spin); O-8 no function of common/amp returns, writes, appends/copies into, or calls a method on a package-level object (compiled regexps, base64 alphabets and sync primitives excepted). Added after the fourth seeding round: O-1b the element encoder's two counters are only advanced (old value plus something) or restarted at zero behind the comparison with their limit, and every payload write is followed by an advance of the chunk counter. Added after the fifth seeding round: decodeToWriter returns success only behind the end-of-input token test; the base64 decoder returned by NewArmorDecoder reads the pipe itself (no limiting reader in between). Added after the sixth seeding round and the mutation audit: O-7b every token return of splitASCIIWhitespace advances to the token's end in data or one past it (bounds composed through nested slices, compared symbolically); O-7/C11 the AMP exchange caps the body it reads, not the decoder's output.",
 		NotDecided:  "round-trip equality and re-chunking invariance over actual bytes (value-level), the HTML tokenizer's behaviour (third-party).",
 		Assumptions: []string{"golang.org/x/net/html honours SetMaxBuf", "encoding/base64 streaming encoder/decoder are inverse"},
 	}, runC10)
@@ -20,6 +20,13 @@ func init() {
 
 func runC10(c *Ctx) {
 	p := c.P
+	// the armored document is bounded before it is decoded: the cap is on the body the cache sends, not on what
+	// comes out of the decoder (C11's obligation on the AMP exchange)
+	if ex := p.Fn("client/lib", "(*ampCacheRendezvous).Exchange"); ex != nil {
+		c.prefix = "O-7/C11:"
+		c.checkStatusAndLimit(ex, "ampCacheRendezvous")
+		c.prefix = ""
+	}
 	amp := p.FnsIn("common/amp")
 	for _, fn := range amp {
 		c.analysedFn(p.FnName(fn))
@@ -151,8 +158,10 @@ func runC10(c *Ctx) {
 		lits := map[string]bool{}
 		for _, ci := range callsIn(ecl) {
 			if calleeName(ci) == "(io.Writer).Write" {
-				if s, ok := constString(ci.Common().Args[0]); ok {
-					lits[s] = true
+				if ss, ok := constStrings(ci.Common().Args[0]); ok {
+					for _, s := range ss {
+						lits[s] = true
+					}
 				}
 			}
 		}
@@ -257,6 +266,7 @@ func runC10(c *Ctx) {
 			okW = false
 		}
 	}
+	c.checkSplitAdvance()
 	splitOK := false
 	if sp := p.Fn("common/amp", "splitASCIIWhitespace"); sp != nil {
 		// every token returned is data[i:j]; the at-EOF return is behind i < j
@@ -671,5 +681,115 @@ func (c *Ctx) checkDecoderEnds() {
 		if n == 0 {
 			c.undecided(ruleB, "NewArmorDecoder builds a base64 decoder", p.Pos(nd.Pos()), "no base64.NewDecoder call found")
 		}
+	}
+}
+
+// ---------- the word scanner consumes exactly what it returns ----------
+
+// linExpr is an integer expression as a constant plus integer multiples of opaque SSA values.
+type linExpr struct {
+	k     int64
+	terms map[string]int64
+}
+
+func (a linExpr) add(b linExpr, sign int64) linExpr {
+	out := linExpr{k: a.k + sign*b.k, terms: map[string]int64{}}
+	for t, v := range a.terms {
+		out.terms[t] += v
+	}
+	for t, v := range b.terms {
+		out.terms[t] += sign * v
+	}
+	for t, v := range out.terms {
+		if v == 0 {
+			delete(out.terms, t)
+		}
+	}
+	return out
+}
+
+func linOf(v ssa.Value, data ssa.Value, depth int) linExpr {
+	v = strip(v)
+	if k, ok := constInt(v); ok {
+		return linExpr{k: k, terms: map[string]int64{}}
+	}
+	if depth < 8 {
+		switch x := v.(type) {
+		case *ssa.BinOp:
+			switch x.Op {
+			case token.ADD:
+				return linOf(x.X, data, depth+1).add(linOf(x.Y, data, depth+1), 1)
+			case token.SUB:
+				return linOf(x.X, data, depth+1).add(linOf(x.Y, data, depth+1), -1)
+			}
+		case *ssa.Call:
+			if calleeName(x) == "builtin.len" && len(x.Call.Args) == 1 {
+				if strip(x.Call.Args[0]) == data {
+					return linExpr{terms: map[string]int64{"len(data)": 1}}
+				}
+				// len of a slice of data: high - low
+				if lo, hi, ok := sliceBounds(x.Call.Args[0], data, depth+1); ok {
+					return hi.add(lo, -1)
+				}
+			}
+		}
+	}
+	return linExpr{terms: map[string]int64{fmt.Sprintf("%s@%p", v.Name(), v): 1}}
+}
+
+// sliceBounds: v is data[lo:hi] (through nested slicing); the bounds in data's coordinates.
+func sliceBounds(v ssa.Value, data ssa.Value, depth int) (lo, hi linExpr, ok bool) {
+	v = strip(v)
+	if v == data {
+		return linExpr{terms: map[string]int64{}}, linExpr{terms: map[string]int64{"len(data)": 1}}, true
+	}
+	sl, isSl := v.(*ssa.Slice)
+	if !isSl || depth > 8 {
+		return lo, hi, false
+	}
+	l0, h0, ok0 := sliceBounds(sl.X, data, depth+1)
+	if !ok0 {
+		return lo, hi, false
+	}
+	lo = l0
+	if sl.Low != nil {
+		lo = l0.add(linOf(sl.Low, data, depth+1), 1)
+	}
+	hi = h0
+	if sl.High != nil {
+		hi = l0.add(linOf(sl.High, data, depth+1), 1)
+	}
+	return lo, hi, true
+}
+
+// checkSplitAdvance: every return of the bufio.SplitFunc that yields a token advances to the token's end in the
+// input, or one byte (the delimiter) past it. An advance measured in other coordinates (relative to the start of
+// the word rather than of the data) rescans or skips bytes as soon as the input has leading white space.
+func (c *Ctx) checkSplitAdvance() {
+	p := c.P
+	rule := "O-7b the word scanner consumes exactly the word and one delimiter"
+	sp := p.Fn("common/amp", "splitASCIIWhitespace")
+	if sp == nil || len(sp.Params) < 1 {
+		c.undecided(rule, "amp.splitASCIIWhitespace", "-", "anchor does not resolve")
+		return
+	}
+	data := ssa.Value(sp.Params[0])
+	n := 0
+	for _, r := range returnsOf(sp) {
+		if len(r.Results) != 3 || isNilConst(strip(retVal(r, 1))) {
+			continue
+		}
+		n++
+		_, hi, ok := sliceBounds(retVal(r, 1), data, 0)
+		if !ok {
+			c.undecided(rule, "splitASCIIWhitespace advance", p.instrPos(r), "the token is not a slice of the data parameter")
+			continue
+		}
+		d := linOf(retVal(r, 0), data, 0).add(hi, -1)
+		good := len(d.terms) == 0 && (d.k == 0 || d.k == 1)
+		c.check(good, rule, "splitASCIIWhitespace advances to the end of the token it returns", p.instrPos(r), fmt.Sprintf("advance - end of token = %d", d.k), "the advance is not the token's end position in data (or one past it): with leading white space in the input - text re-indented or re-wrapped by a cache - bytes of the word are scanned twice or skipped, and the decoded payload differs")
+	}
+	if n == 0 {
+		c.undecided(rule, "splitASCIIWhitespace advance", p.Pos(sp.Pos()), "no token return found")
 	}
 }
